@@ -27,28 +27,38 @@ def showHdr (h : Header) (b : Bytes) : String :=
 def factScheme (sigok : Bool) : Scheme KeyKind KeyKind :=
   { pub := id, kind := id, sign := fun _ _ _ _ => [], verify := fun _ _ _ _ => sigok }
 
+def hdrOnly (h : Header) : String :=
+  s!"{h.algo} {hexOf h.keyId} {h.sec} {h.nanos} {hexOf h.metadata} {h.adLen}"
+
+def runVerify (k : Option KeyKind) (sigok : String) (hb : Bytes)
+    (outer : Option (Bytes × Bytes × Bytes)) (inner : Option Header) (ad : List Bytes) : String :=
+  let F : Framing := { parseHdr := fun _ => inner, parseOuter := fun _ => outer }
+  match verifyMsg F (factScheme (sigok == "1")) ⟨hb, []⟩ k ad with
+  | .ok (h', b') => "ok " ++ showHdr h' b'
+  | .error _ => "err"
+
 def handle : List String → String
   | "enc" :: kind :: algo :: keyid :: sec :: nanos :: md :: adlen :: body :: ad =>
     match kindArg kind, hdrArgs algo keyid sec nanos md adlen, unhex body, ad.mapM unhex with
     | some k, some h, some b, some ad =>
-      match signInput (pbFraming fun _ => none) h b k ad with
+      match signInput h b k ad with
       | .ok (hb, pre) => s!"ok {hexOf hb} {hexOf pre}"
       | .error _ => "err"
     | _, _, _, _ => "bad-op"
-  | "ver" :: kind :: sigok :: "P" :: algo :: keyid :: sec :: nanos :: md :: adlen :: body :: ad =>
-    match kindArg kind, hdrArgs algo keyid sec nanos md adlen, unhex body, ad.mapM unhex with
-    | some k, some h, some b, some ad =>
-      match verifyMsg (pbFraming fun _ => some (h, b)) (factScheme (sigok == "1")) ⟨[], []⟩ k ad with
-      | .ok (h', b') => "ok " ++ showHdr h' b'
-      | .error _ => "err"
-    | _, _, _, _ => "bad-op"
-  | "ver" :: kind :: sigok :: "E" :: ad =>
-    match kindArg kind, ad.mapM unhex with
-    | some k, some ad =>
-      match verifyMsg (pbFraming fun _ => none) (factScheme (sigok == "1")) ⟨[], []⟩ k ad with
-      | .ok (h', b') => "ok " ++ showHdr h' b'
-      | .error _ => "err"
-    | _, _ => "bad-op"
+  | "ver" :: kind :: sigok :: hb :: "O" :: e :: b :: u :: "P" :: algo :: keyid :: sec :: nanos :: md :: adlen :: ad =>
+    match kindArg kind, unhex hb, unhex e, unhex b, unhex u, hdrArgs algo keyid sec nanos md adlen,
+      ad.mapM unhex with
+    | some k, some hb, some e, some b, some u, some h, some ad =>
+      runVerify k sigok hb (some (e, b, u)) (some h) ad
+    | _, _, _, _, _, _, _ => "bad-op"
+  | "ver" :: kind :: sigok :: hb :: "O" :: e :: b :: u :: "E" :: ad =>
+    match kindArg kind, unhex hb, unhex e, unhex b, unhex u, ad.mapM unhex with
+    | some k, some hb, some e, some b, some u, some ad => runVerify k sigok hb (some (e, b, u)) none ad
+    | _, _, _, _, _, _ => "bad-op"
+  | "ver" :: kind :: sigok :: hb :: "X" :: ad =>
+    match kindArg kind, unhex hb, ad.mapM unhex with
+    | some k, some hb, some ad => runVerify k sigok hb none none ad
+    | _, _, _ => "bad-op"
   | _ => "bad-op"
 
 end Driver.Signed
